@@ -133,7 +133,7 @@ var fullKeys = []string{"ok", "cur", "panic", "effs"}
 
 // C02: execution is demand-driven and in lockstep with the consumer.
 func C02(c *vf.Check) {
-	runFam(c, famSpec{id: "C02", fam: "eff", name: "F_eff", sizeQ: "3", sizeT: "4", tapeQ: "3", tapeT: "3", callsQ: 4, callsT: 5,
+	runFam(c, famSpec{id: "C02", fam: "eff", name: "F_eff", sizeQ: "3", sizeT: "3", tapeQ: "3", tapeT: "4", callsQ: 4, callsT: 5,
 		keys: fullKeys, truncations: true, lazyT: true,
 		rule:   "every program of F_eff (control-flow family with an effect statement alphabet and effectful yield expressions r.V(id,a)) up to MaxSize x every tape x EVERY truncation length k in 0..MaxCalls as a separate run on a fresh iterator; the observation is the interleaving: recorder entries written during construction (must be none), during each MoveNext (exactly the entries between two yields, in order, including the yielded expression's own), and after the consumer stopped (must be none); non-trivial = run with at least one effect or yield",
 		assume: []string{"'nothing further runs' is observed as: the recorder does not grow after the last call (after runtime.Gosched)"}})
@@ -143,7 +143,7 @@ func C02(c *vf.Check) {
 
 // the expression-shape family is part of C02 (second run)
 func c02Expr(c *vf.Check) {
-	runFam(c, famSpec{id: "C02", fam: "expr", name: "F_expr", sizeQ: "2", sizeT: "3", tapeQ: "2", tapeT: "3", callsQ: 4, callsT: 5,
+	runFam(c, famSpec{id: "C02", fam: "expr", name: "F_expr", sizeQ: "2", sizeT: "3", tapeQ: "2", tapeT: "2", callsQ: 4, callsT: 5,
 		keys: fullKeys, truncations: true,
 		rule: "F_eff: every program (control flow with effects at every position and effectful yield expressions) up to MaxSize x tapes x EVERY truncation as a separate run; F_expr: every shape of yielded expression (literal / variable / effectful call, plain, negated, parenthesised, argument of a one-argument call) at every position of a small control alphabet, also as for-post; the observation is the interleaving of recorder entries with the consumer's calls (none at construction, exactly those between two yields per MoveNext, none after stop)"})
 }
@@ -158,7 +158,7 @@ func c02Box(c *vf.Check) {
 
 // C03: local state and lexical scoping survive suspension.
 func C03(c *vf.Check) {
-	runFam(c, famSpec{id: "C03", fam: "scope", name: "F_scope", sizeQ: "3", sizeT: "4", tapeQ: "3", tapeT: "3", callsQ: 5, callsT: 6,
+	runFam(c, famSpec{id: "C03", fam: "scope", name: "F_scope", sizeQ: "3", sizeT: "4", tapeQ: "3", tapeT: "2", callsQ: 5, callsT: 6,
 		keys: fullKeys, lazyT: true,
 		rule:   "every program of F_scope up to MaxSize: shadowing declarations a := a + 10 in nested blocks and in if / switch / for initialisers, a++ (also as post statement), a closure f := func() { a += 100 } created before any yield and called after, effects and yields observing the variables in scope; x every tape; non-trivial as in C01",
 		assume: []string{"no closure captures a three-clause loop variable across iterations (the only place where go<=1.21 and go>=1.22 scoping differ)"}})
@@ -172,7 +172,7 @@ func C03(c *vf.Check) {
 
 // C05: YieldFrom splices the delegate's remaining elements, lazily and in order.
 func C05(c *vf.Check) {
-	runFam(c, famSpec{id: "C05", fam: "yf", name: "F_yf", sizeQ: "3", sizeT: "4", tapeQ: "3", tapeT: "5", callsQ: 6, callsT: 9,
+	runFam(c, famSpec{id: "C05", fam: "yf", name: "F_yf", sizeQ: "3", sizeT: "4", tapeQ: "3", tapeT: "2", callsQ: 6, callsT: 7,
 		keys: fullKeys, deleg: true, budget: 40,
 		rule:   "every main program of F_yf up to MaxSize over three delegates (two yields with an effect between; maybe-empty; recursive tree walk whose depth is bounded by the tape) with YieldFrom at every statement position including for-post, argument literal or variable; x every tape; every truncation is a prefix of the per-call observation (effects show the one-delegate-step-per-consumer-step lockstep and the single evaluation of the argument)",
 		assume: []string{"delegates are fresh instances created by the YieldFrom argument expression; partially consumed delegates are covered by C06"}})
@@ -180,7 +180,7 @@ func C05(c *vf.Check) {
 
 // C18: panics surface from the advance that ran the panicking statement.
 func C18(c *vf.Check) {
-	runFam(c, famSpec{id: "C18", fam: "panic", name: "F_panic", sizeQ: "3", sizeT: "4", tapeQ: "3", tapeT: "3", callsQ: 5, callsT: 6,
+	runFam(c, famSpec{id: "C18", fam: "panic", name: "F_panic", sizeQ: "3", sizeT: "4", tapeQ: "3", tapeT: "2", callsQ: 5, callsT: 6,
 		keys: fullKeys, lazyT: true,
 		rule:   "every program of the control-flow family with panic(\"boom\") at any statement position (programs without a panic statement are excluded) x every tape; the driver recovers around every MoveNext and records which call panicked with which value; values and effects delivered before must match; non-trivial as in C01",
 		assume: []string{"behaviour after the panic is unconstrained by the property: the history ends at the panicking call", "budget exhaustion (r.T / r.E beyond the event budget) is a second source of panics at arbitrary positions inside loops"}})
